@@ -50,13 +50,16 @@ def _nll_at(lik, fcn, params):
 def _one_dataset(ctx, lib, comp, truth, theta, noise, seed, P=1, exact_offset=False):
     import esr.fitting.likelihood as L
     rs = np.random.default_rng(seed)
-    x = np.linspace(0.4, 3.2, 30)
+    x = GRID.copy()
     s = np.full(30, noise)
     model = oracle_mdl.linear_model(truth)
     k, cols, off = model
     y = off(x) + sum(t * c(x) for t, c in zip(theta, cols)) + rs.normal(0, noise, 30)
     if truth == "a0 + x" and len(theta) == 1 and exact_offset:
         y = y + (theta[0] - float(np.mean(y - x)))          # make the ESTIMATED offset exactly the planted one
+    pat = ctx.extra.setdefault("planted_sign_patterns", {})                  # input distribution: sign of every planted parameter
+    sk = "%s [%s]" % (truth, ",".join("+" if t > 0 else "-" for t in theta))
+    pat[sk] = pat.get(sk, 0) + 1
     tag = "c04_%d_%d" % (comp, seed)
     dd = os.path.join(ctx.tmp, tag); os.makedirs(dd, exist_ok=True)
     fitlib.write_data(os.path.join(dd, "d.txt"), x, y, s)
@@ -89,6 +92,7 @@ def _one_dataset(ctx, lib, comp, truth, theta, noise, seed, P=1, exact_offset=Fa
     trees = libgen.read_trees(libgen.libfile(lib["dir"], comp, "trees"))
     nlin = 0
     worst = None
+    beaten = []
     cache = ctx.extra.setdefault("_models", {})
     for i, (f, labels) in enumerate(zip(funs, trees)):
         if f not in cache:
@@ -106,13 +110,64 @@ def _one_dataset(ctx, lib, comp, truth, theta, noise, seed, P=1, exact_offset=Fa
         ctx.case((truth, noise, seed, comp, i), nontrivial=True)
         if worst is None or dl < worst[0]:
             worst = (dl, i, f)
-        if top > dl + TOL + 1e-7 * abs(dl):
-            ctx.fail("top-beaten", "top-ranked DL %.8g (%s) exceeds the independently computed DL %.8g of tree %r (line %d, %s; theta*=%s, nll %.6g, codelen %.6g)" % (
-                top, rows[0]["fcn"], dl, labels, i, f, [round(float(t), 5) for t in cf["theta_reported"]], cf["nll"], cf["codelen"]), dict(rp, line=i))
+        if not top <= dl + TOL + 1e-7 * abs(dl):
+            beaten.append((dl, i, "top-ranked DL %.8g (%s) exceeds the independently computed DL %.8g of tree %r (line %d, %s; theta*=%s, nll %.6g, codelen %.6g)" % (
+                top, rows[0]["fcn"], dl, labels, i, f, [round(float(t), 5) for t in cf["theta_reported"]], cf["nll"], cf["codelen"])))
+    for dl, i, what in sorted(beaten):             # the enumerated tree with the smallest description length first
+        ctx.fail("top-beaten", what, dict(rp, line=i))
     ctx.sample(dict(truth=truth, theta=list(theta), noise=noise, seed=seed, comp=comp, top=rows[0]["fcn"], top_DL=top, best_linear=worst, linear_trees=nlin, rows_reproduced=nrep,
                     wall_s=round(r["wall_s"], 1)), cap=6)
     ctx.extra["linear_trees"] = ctx.extra.get("linear_trees", 0) + nlin
     ctx.extra["rows_reproduced"] = ctx.extra.get("rows_reproduced", 0) + nrep
+
+
+GRID = np.linspace(0.4, 3.2, 30)        # the abscissae of every data set of this check
+
+
+def _scale_shapes(ctx, lib, comp):
+    """The pure scale families of the library at this complexity: one-parameter trees f = a0*psi(x) with no offset and a
+    non-constant psi (a0*x, a0/x, a0*x**2, a0*pow(x,x), ...), one representative per distinct psi (up to a constant factor).
+    Their parameter's SIGN cannot move into the tree (core_maths has no unary minus), so a data set planted from -|c|*|psi|
+    has a negative maximum-likelihood parameter in EVERY variant of its best class."""
+    out, seen = [], []
+    for f in libgen.read_funs(libgen.libfile(lib["dir"], comp, "all_equations")):
+        if oracle_mdl.params_of(f) != [0]:
+            continue
+        m = oracle_mdl.linear_model(f)
+        if m is None:
+            continue
+        with np.errstate(all="ignore"):
+            c = np.broadcast_to(np.asarray(m[1][0](GRID), dtype=float), GRID.shape)
+            o = np.broadcast_to(np.asarray(m[2](GRID), dtype=float), GRID.shape)
+        if not (np.all(np.isfinite(c)) and np.all(o == 0)) or np.ptp(c) <= 1e-9 * np.max(np.abs(c)) or not (np.all(c > 0) or np.all(c < 0)):
+            continue
+        u = c / np.linalg.norm(c)
+        if any(np.allclose(u, v, rtol=0, atol=1e-9) or np.allclose(u, -v, rtol=0, atol=1e-9) for v in seen):
+            continue
+        seen.append(u); out.append((f, 1.0 if c[0] > 0 else -1.0, float(np.sqrt(np.sum(c * c)))))
+    return out
+
+
+def _signed_scale_plan(ctx, lib, comps, per_comp, signs):
+    """Sign sweep of the planted parameters (the fixed truths above are almost all positive): per complexity, `per_comp` scale
+    families drawn from the library itself, planted as  sign * |c| * |psi(x)|  for every sign in `signs`, with |c| between 4
+    and 60 precision steps sqrt(12/F) of the planted parameter (never snapped to zero, and both |c| < 1 and |c| > 1 occur)."""
+    plan, planted = [], set()
+    for comp in comps:
+        shapes = _scale_shapes(ctx, lib, comp)
+        ctx.extra.setdefault("scale_families", {})[str(comp)] = [f for f, _, _ in shapes]
+        if not shapes:          # (never so for the shipped bases) the oracle only ever compares with trees that ARE in the library
+            shapes = [("a0*x", 1.0, float(np.linalg.norm(GRID))), ("a0/x", 1.0, float(np.linalg.norm(1.0 / GRID)))]
+        fresh = [t for t in shapes if t[0] not in planted]               # shapes not yet planted at a lower complexity come first
+        stale = [t for t in shapes if t[0] in planted]
+        picks = (ctx.rng.sample(fresh, len(fresh)) + ctx.rng.sample(stale, len(stale)))[:per_comp]
+        planted.update(t[0] for t in picks)
+        for j, (f, sgn_psi, norm) in enumerate(picks):
+            noise = ctx.rng.choice([0.05, 0.3])
+            mag = math.exp(ctx.rng.uniform(math.log(4.0), math.log(60.0))) * math.sqrt(12.0) * noise / norm
+            for q, sg in enumerate(signs):
+                plan.append((comp, f, [sg * sgn_psi * mag], noise, ctx.seed * 100 + comp * 10 + 5 + 2 * j + q, 1 if (j + q + comp) % 2 else 3))
+    return plan
 
 
 def run(ctx):
@@ -132,6 +187,12 @@ def run(ctx):
     for j, comp in enumerate([4] if not deep else [4, 5]):
         noise = 0.3
         plan.append((comp, "a0 + x", [ctx.rng.uniform(0.88, 0.97) * math.sqrt(12.0) * noise / math.sqrt(30.0)], noise, ctx.seed * 100 + 90 + j, 1, True))
+    # sign sweep: negative multiplicative / divisive constants (every variant of the best class then carries a negative parameter)
+    plan += _signed_scale_plan(ctx, lib, [3, 4] if not deep else [3, 4, 5], 1 if not deep else 2, [-1.0] if not deep else [-1.0, 1.0])
+    if deep:
+        # every sign pattern of a two-parameter truth (the all-positive one is in the fixed list above)
+        for q, (s0, s1) in enumerate([(-1, 1), (1, -1), (-1, -1)]):
+            plan.append((5, "a0*x + a1", [s0 * ctx.rng.uniform(0.5, 2.0), s1 * ctx.rng.uniform(0.5, 3.0)], ctx.rng.choice([0.05, 0.3]), ctx.seed * 100 + 60 + q, 1 if q % 2 else 3))
     for item in plan:
         comp, t, th, noise, seed, P = item[:6]
         _one_dataset(ctx, lib, comp, t, th, noise, seed, P=P, exact_offset=(len(item) > 6))
